@@ -235,22 +235,70 @@ fn main() {
     let mut rng = Rng::new(a.seed);
     let mut run = Run::new(&a.out);
     quiet_panics();
-    let (epochs, batch, per_tree, synthetic_per_tree) = if a.thorough() { (60usize, 8usize, 40usize, 12usize) } else { (14, 3, 8, 6) };
+    let (epochs, batch, per_tree, synthetic_per_tree, converged) = if a.thorough() { (60usize, 8usize, 40usize, 12usize, 12usize) } else { (14, 3, 8, 6, 4) };
     run.rule = format!(
-        "{epochs} training epochs x {batch} trees sampled by the real Blueprint::tree from an initially empty Profile with the stand-in abstraction, traverser alternating; profile updated as Blueprint::solve does. Search oracle: textbook estimator in f64 on every information set of every tree (tolerance {TOL}·Σ|terms|). Correspondence: every tree dumped, with its multi-node information sets, its largest information set and a random sample (up to {per_tree} per tree). An information set is non-trivial when Σ|terms| > 0 and it has >= 2 actions; distinct by (epoch, tree, bucket id). Deals come from the code's own thread_rng (every third tree uses the forced draw index from VERIF_SEED); each dumped tree is self-contained in ops.txt"
+        "{epochs} training epochs x {batch} trees sampled by the real Blueprint::tree from an initially empty Profile with the stand-in abstraction, traverser alternating; profile updated as Blueprint::solve does; then one tree at each side of the Discount/Explore and Explore/Prune phase boundaries (epoch counter set by the hook); then {converged} trees in 'converged strategy' profile states (every traverser bucket of the tree: one action ~1, the others 1e-10..1e-12 via verif_set_memory, both traversers). Search oracle: textbook estimator in f64 on every information set of every tree (tolerance {TOL}·Σ|terms|). Correspondence: every tree dumped, with its multi-node information sets, its largest information set and a random sample (up to {per_tree} per tree). An information set is non-trivial when Σ|terms| > 0 and it has >= 2 actions; distinct by (epoch, tree, bucket id). Deals come from the code's own thread_rng (every third tree uses the forced draw index from VERIF_SEED); each dumped tree is self-contained in ops.txt"
     );
     let bp = Blueprint::verif_new(Profile::default(), Encoder::default());
     let profile = bp.verif_profile();
     let mut tree_no = 0u64;
-    for epoch in 0..epochs {
+    // the training epochs, then one tree at each side of every phase boundary (Discount / Explore /
+    // Prune: the update step's discount and any phase-keyed code run there), both traversers
+    let (dph, pph) = (robopoker::verif::CFR_DISCOUNT_PHASE, robopoker::verif::CFR_PRUNNING_PHASE);
+    let mut schedule: Vec<(usize, usize, bool)> = (0..epochs).map(|e| (e, batch, false)).collect();
+    for e in [dph - 1, dph, dph + 1, pph - 1, pph, pph + 1] {
+        schedule.push((e, 1, false));
+    }
+    // "converged strategy" profile states (late training: abandoned actions keep an average-strategy
+    // weight of ~1e-10 .. 1e-12): the traverser's stored policies of every bucket of the tree are
+    // overwritten with one action ~ 1 and the others 1e-10 / 1e-11 / 1e-12, so that the products of
+    // the traverser's own probabilities along deep lines fall below the f32 normal range
+    // (1e-40 .. 1e-60). The exact model and the f64 oracle do not underflow. In the real f32
+    // computation such a product only ever multiplies a leaf's payoff inside a sum whose other terms
+    // are O(payoff), so flushing it to 0 costs an absolute error far below the 1e-4 x sum|terms|
+    // tolerance: the clean code stays within it.
+    for k in 0..converged {
+        schedule.push((16000 + k, 1, true));
+    }
+    for (epoch, batch, converged) in schedule {
+        if epoch >= epochs {
+            profile.write().unwrap().verif_set_epochs(epoch);
+            if !converged {
+                run.count(&format!("phase-boundary-epoch={epoch}"));
+            }
+        }
         let mut cfs: Vec<Counterfactual> = vec![];
         for _ in 0..batch {
             tree_no += 1;
             if tree_no % 3 == 0 {
                 robopoker::verif::set_draw_index(Some(rng.below(52) as u8));
             }
-            let tree = bp.verif_tree();
+            let mut tree = bp.verif_tree();
             robopoker::verif::set_draw_index(None);
+            if converged {
+                for _ in 0..6 {
+                    let n = tree.all().len();
+                    if (300..=6000).contains(&n) {
+                        break;
+                    }
+                    tree = bp.verif_tree();
+                }
+                let walker = tree.walker();
+                let mut p = profile.write().unwrap();
+                let mut seen: std::collections::HashSet<Bucket> = Default::default();
+                for node in tree.all() {
+                    if node.player() == walker && !node.children().is_empty() && seen.insert(node.bucket().clone()) {
+                        let edges: Vec<robopoker::mccfr::edge::Edge> = node.outgoing().into_iter().copied().collect();
+                        let fav = rng.below(edges.len() as u64) as usize;
+                        for (j, e) in edges.iter().enumerate() {
+                            let (r, _) = p.verif_memory(node.bucket(), e).expect("witnessed");
+                            let pol = if j == fav { 1.0 } else { [1e-10f32, 1e-11, 1e-12][j % 3] };
+                            p.verif_set_memory(node.bucket(), e, r, pol);
+                        }
+                    }
+                }
+                run.count("converged-strategy-tree");
+            }
             let d = { dump(&tree, &profile.read().unwrap()) };
             let (v, va) = d.values();
             let n = d.parent.len();
@@ -270,6 +318,16 @@ fn main() {
             if let Some(big) = (0..infos.len()).min_by_key(|&i| infos[i].roots()[0].index().index()) {
                 if !chosen.contains(&big) {
                     chosen.push(big);
+                }
+            }
+            if converged {
+                // the deepest heads: they sit below the most abandoned actions
+                let mut by_depth: Vec<usize> = (0..infos.len()).collect();
+                by_depth.sort_by_key(|&i| std::cmp::Reverse(d.depth[infos[i].roots()[0].index().index()]));
+                for &i in by_depth.iter().take(4) {
+                    if !chosen.contains(&i) {
+                        chosen.push(i);
+                    }
                 }
             }
             while chosen.len() < per_tree.min(infos.len()) {
